@@ -469,7 +469,7 @@ func charts(reports []*telemetryReport, cfg *config.Config) (*chartdata, error) 
 				ID:     "charts:" + pg.Name + ":" + c.Name,
 				Name:   c.Name,
 				Data:   cdata,
-				Active: cfg.HasCounter(pg.Name, c.Name) || cfg.HasCounterPrefix(pg.Name, c.Name),
+				Active: cfg.HasCounter(pg.Name, c.Name) || cfg.HasCounterPrefix(pg.Name, c.Name) || cfg.HasStack(pg.Name, c.Name),
 			}
 			prog.Counters = append(prog.Counters, count)
 			sort.Slice(count.Data, func(i, j int) bool {
